@@ -87,6 +87,26 @@ func c11Config(p *Prog, c *Check) {
 		}
 	}
 	c.Floor(rule, n, 1)
+	// a vote is RECORDED only for a member of the last configuration (the guard must precede the write:
+	// a refused sender's vote must not stay in the tally)
+	nv := 0
+	for _, fn := range p.Funcs {
+		if relPkg(fnPkgPath(fn)) != "app" || isTestScaffold(fn) {
+			continue
+		}
+		fi := p.Info(fn)
+		for _, ci := range callsTo(fn, "AddVote") {
+			call, isCall := ci.(*ssa.Call)
+			if !isCall || !ParsePat("_.ConfigVoting").Match(stripAddr(fi.T(call.Common().Args[0])), Binds{}) {
+				continue
+			}
+			nv++
+			c.Analysed(shortFn(fn))
+			c.Guard(p, rule+".vote", "AddVote(ConfigVoting)@"+shortFn(fn), call, "ConfigVoting.AddVote(sender, bc)", Binds{"sender": fi.T(call.Common().Args[1])},
+				"KeyperIndex(LastConfig(_), $sender)#1 == true")
+		}
+	}
+	c.Floor(rule+".vote", nv, 1)
 	// checkConfig summary
 	cc, err := p.Func("app.ShutterApp.checkConfig")
 	if c.Must(err) {
@@ -650,6 +670,8 @@ func checkC12(p *Prog, c *Check) {
 	c12Powermap(p, c)
 	uniqueAddrsRule(p, c, "C12-R6")
 	c12Quorum(p, c)
+	// identities (and so voting power) change only through accepted transactions
+	c10NoWriteBeforeRefusal(p, c)
 }
 
 func c12EndBlock(p *Prog, c *Check) {
@@ -1584,3 +1606,4 @@ func genesisOnly(p *Prog, c *Check) map[*ssa.Function]bool {
 	}
 	return genesisOnlySet
 }
+
